@@ -573,7 +573,28 @@ def k_solution_roundtrip(d):
     return out
 
 
-KINDS = {'field_roundtrip': k_field_roundtrip, 'solution_roundtrip': k_solution_roundtrip, 'fdf_value': k_fdf_value, 'cli_session': k_cli_session, 'field_value': k_field_value, 'figure_tax': k_figure_tax, 'solve': k_solve, 'program': k_program, 'input_value': k_input_value}
+def k_statutory(d):
+    """Confirms on the uninstrumented code that the module defining the site
+    line carries the foreign constant / lacks the official one (thresholds
+    tables and inline literals are both plain numeric literals in the source)."""
+    import inspect, re
+    from habutax import forms
+    form_name = d['site'].split('.')[0].split(':')[0]
+    cls = [c for c in forms.available_forms[d['year']] if c.form_name == form_name][0]
+    src = inspect.getsource(inspect.getmodule(cls))
+    nums = set()
+    for m in re.finditer(r'(?<![\w.])(\d[\d_]*\.?\d*)', src):
+        try:
+            nums.add(Fraction(m.group(1).replace('_', '')))
+        except Exception:
+            pass
+    bad_present = [b for b in d['bad'] if Fraction(b) in nums]
+    missing_absent = [m for m in d['missing'] if Fraction(m) not in nums]
+    rep = bool(bad_present) or bool(missing_absent) or (not d['bad'] and bool(d['missing']))
+    return {'reproduced': rep, 'detail': 'module %s: foreign literals present %s, official literals absent %s' % (inspect.getmodule(cls).__name__, bad_present, missing_absent)}
+
+
+KINDS = {'statutory': k_statutory, 'field_roundtrip': k_field_roundtrip, 'solution_roundtrip': k_solution_roundtrip, 'fdf_value': k_fdf_value, 'cli_session': k_cli_session, 'field_value': k_field_value, 'figure_tax': k_figure_tax, 'solve': k_solve, 'program': k_program, 'input_value': k_input_value}
 
 
 def main():
